@@ -12,13 +12,17 @@ RULE = ('enumerated: a rejection / crash / nothing at every position of every ch
         'surplus positional) x strict x mode; the required / None / default cascade of one '
         'parameter in every combination (required x Parameter default x signature default x call x external source x mode x strict); surplus '
         'arguments (unknown keyword, extra positional, undeclared signature parameter, Parameter outside the signature) x strict x mode x '
-        'method x async.  Plus seeded structured programs: 1-4 named parameters (+-self as real methods, sync/async, +-defaults, keyword-only, '
+        'method x async; the RECEIVER (recognised by the signature: first parameter called self): plain functions def f(a=D) / def f(x=D, a=D) / '
+        'def f(a, b=D) called with a keyword self whose value the chain of a rejects, next to None / a value / nothing for a (the former failing input '
+        'of the repaired finding selfKeywordBypassesGate and its neighbours), an ordinary parameter called self in second position (declared or not, '
+        'with or without default, positional / keyword / mixed / omitted), real methods def f(self, a, b=D) called on the instance or on the CLASS with '
+        'the receiver by keyword (first / last keyword), a second value for self, a Parameter declared for self or not - each x strict x mode x sync / async.  Plus seeded structured programs: 1-4 named parameters (+-self as real methods, sync/async, +-defaults, keyword-only, '
         '*args; in 40 % of the programs some parameters carry a name of that pool), shuffled declarations (plain / EnvironmentVariableParameter set or unset / harness-defined ExternalParameter; default NoValue, '
         'value, None, falsy; required or not; value_type in None,int,float,bool,str,list,dict (values incl. byte strings, valid and invalid UTF-8); chains of 0-3 recording validators that map, '
         'return None, return a falsy constant, reject or crash, ~30 % of them with a pre-set / delegated foreign parameter_name on their exception; '
         'duplicate and out-of-signature declarations as near misses), strict, '
         'ignore_input, calls with every prefix length, shuffled keywords, omissions, None, falsy values, surplus, a name passed twice, the '
-        'same object twice, a keyword called self; ordinary parameters called args, kwargs, cls, and self in a non-first position; a VAR_POSITIONAL '
+        'same object twice, a keyword called self (plain functions and methods), 8 % of the method calls made on the class with the receiver passed by keyword; ordinary parameters called args, kwargs, cls, and self in a non-first position; a VAR_POSITIONAL '
         'parameter spelled *args or *rest, the string \'*args\' as a default value (enumerated: x a Parameter declared for that name or not x spare Parameter x 0-2 surplus positionals x strict x mode).  '
         'Plus HISTORIES (scenarios): 2-4 sequential calls on ONE decorated function object (state kept between calls), sometimes a second function '
         'object sharing the Parameter objects, with RE-ENTRANT validators: a recording validator, on a chosen invocation, calls the same (or the other) '
@@ -38,6 +42,7 @@ TRUSTED = ['Python call binding (positional / keyword / defaults / *args) is mod
 
 def cases(rng, tier):
     out = V.gate_enum(rng) + V.naming_enum(rng) + V.names_enum(rng) + V.one_param_cascade(rng) + V.surplus_enum(rng) + V.varpos_enum(rng) + V.reentrant_enum(rng)
+    out += V.receiver_enum(rng)
     out += V.random_cases(rng, 44000 if tier == 'quick' else 240000, allow_varargs=True)
     out += V.scenario_cases(rng, 3000 if tier == 'quick' else 20000, allow_varargs=True)
     out += V.flask_cases(rng, 4000 if tier == 'quick' else 30000)
@@ -56,10 +61,7 @@ def judge(case, impl, model):
     if 'calls' in case['c']:
         return V.judge_scenario(case, impl, model, judge)        # every call of the history is judged like a single call
     corr, why = V.correspondence(case, impl, model)
-    pf, finding = V.pfail_gate(case, impl, model), None
-    if isinstance(pf, tuple):
-        # the recorded region (keyword `self` on a plain function / an ordinary parameter called self that is not the first one);
-        # a finding only where the model reproduces the implementation
-        pf, finding = pf[1], (pf[0].split(':', 1)[1] if corr else None)
-    return {'corr': corr, 'why': why, 'pfail': pf, 'finding': finding,
+    # no recorded region: the former finding `selfKeywordBypassesGate` (a keyword `self` on a plain function handed over positionally)
+    # is repaired - a case that falls into it again is a violation
+    return {'corr': corr, 'why': why, 'pfail': V.pfail_gate(case, impl, model), 'finding': None,
             'nontrivial': V.nontrivial(case, impl), 'tag': V.tag_of(case, impl)}
